@@ -18,6 +18,7 @@ import (
 	"filippo.io/age/xverif/internal/rd"
 	"filippo.io/age/xverif/internal/vk"
 	"filippo.io/age/xverif/props/armrd"
+	"filippo.io/age/xverif/props/armwr"
 )
 
 type rcase struct {
@@ -334,6 +335,12 @@ func Run(tier string) {
 		armrd.Run(run, "reader-machine-all-seqs", armrd.Config(0, 0, 6, 1, "{1, 48, 100}", 8, false, true), "", 0)
 	} else {
 		armrd.Run(run, "reader-machine", armrd.Config(1, 1, 8, 1, "{1, 48, 100}", 8, false, true), "", 0)
+	}
+	// the armoring writer as a machine (ArmorWrite.tla): every history of writes and closes, no destination failure
+	if run.Thorough() {
+		armwr.Run(run, "writer-machine", armwr.Config("{0, 1, 2, 3, 47, 48, 49, 96, 800}", 4, 2, 0, "{}", true))
+	} else {
+		armwr.Run(run, "writer-machine", armwr.Config("{0, 1, 2, 3, 47, 48, 50, 800}", 3, 1, 0, "{}", true))
 	}
 	sizesSweep(run)
 	byteSweep(run)
